@@ -167,6 +167,10 @@ def handle : List String → String
       let ps := ns.zip vs
       if encodable (pairsToStr ps) then "ok " ++ encList (serializePairs ps b) else "exc UnicodeEncodeError"
     | _, _, _ => "bad-arg"
+  | ["readcdx", sep, line] =>
+    match sep.toNat?, decList? line with
+    | some sep, some line => encLists (readCdxLine sep line)
+    | _, _ => "bad-arg"
   | ["dec", n] =>
     match n.toNat? with
     | some n => encList (decimal n) ++ " " ++ encList (pad5 n)
